@@ -464,6 +464,8 @@ FAMILIES = [
     ["zoo_ver::ChoV1", "zoo_ver::ChoV2", "zoo_ver::ChoV3"],
     ["zoo_ver::EnuV1", "zoo_ver::EnuV2", "zoo_ver::EnuV3"],
     ["zoo_ver::WrapV1", "zoo_ver::WrapV2", "zoo_ver::WrapV3"],
+    [f"zoo_ver::Big{k}" for k in range(6)],
+    ["zoo_ver::DeepV1", "zoo_ver::DeepV2", "zoo_ver::DeepV3"],
     # SET whose later addition has a lower tag than an earlier one
     ["zoo_ver::SetV1", "zoo_ver::SetV2"],
 ]
@@ -521,7 +523,7 @@ class CrossVersion(UperBase):
                 seeds = [(a, rng.next() % 10**9) for _ in range(k)]
                 # addition encodings of 1..300 octets (property quantifier): half of the values are drawn
                 # with list/string lengths up to the constraint's upper bound
-                big = 300 if "Chain" in a or "Msg" in a or "Wrap" in a or "Cho" in a else 6
+                big = 300 if any(x in a for x in ("Chain", "Msg", "Wrap", "Cho", "Big", "Deep")) else 6
                 half = len(seeds) // 2
                 vals = uperlib.gen_values(seeds[:half], "valid", 6, self.h) + \
                     uperlib.gen_values(seeds[half:], "valid", big, self.h)
@@ -538,7 +540,6 @@ class CrossVersion(UperBase):
         name_w, ty_w, val, name_r, ty_r = items[0], uperlib.parse_sx(items[1]), uperlib.parse_sx(items[2]), items[3], uperlib.parse_sx(items[4])
         a = uperlib.split_sx(ans[3:])
         bits = "" if a[0] == "-" else a[0]
-        tw, tr = ty_w[4][-1] if ty_w[0] == "seq" and len(ty_w) == 5 and ty_w[4][0] == "m" and ty_w[2] == "1" and not name_w.startswith("zoo_ver::Msg") and not name_w.startswith("zoo_ver::Chain") and not name_w.startswith("zoo_ver::Wrap") else ty_w, None
         fam = next(f for f in FAMILIES if name_w in f)
         newer_reader = fam.index(name_r) > fam.index(name_w)
         if a[1].startswith("readerr:"):
